@@ -2,8 +2,8 @@
 
 Part A: random condition token lists over field / group / well / date quantities, evaluated by the library
         through both entry points (Action::AST(tokens).eval and ACTIONX text -> Parser -> parseActionX ->
-        ActionX::eval) and by an independent reference evaluator (shunting-free precedence parser + set algebra
-        written from the property statement).
+        ActionX::eval) and by an independent reference evaluator (own tokenizer, precedence parser and set
+        algebra written from the property statement).
 Part B: the run gating (max_run / min_wait / start time) driven through the documented protocol
         (Actions::pending -> evaluate -> State::add_run), compared step by step with a reference state machine;
         exhaustively for small parameters (every outcome pattern of every small time sequence) and randomly beyond.
@@ -340,120 +340,145 @@ def fmt_num(v, style):
     return repr(float(v))
 
 
-@st.composite
-def a_case(draw):
-    wells = draw(st.lists(st.sampled_from(WELLPOOL), min_size=1, max_size=6, unique=True))
-    groups = draw(st.lists(st.sampled_from(GROUPPOOL), min_size=1, max_size=2, unique=True))
-    levels = draw(st.lists(st.sampled_from(LEVELS), min_size=2, max_size=6, unique=True))
-    val = st.sampled_from(levels)
-    fvars = draw(st.lists(st.sampled_from(FVARS), min_size=1, max_size=3, unique=True))
-    gvars = draw(st.lists(st.sampled_from(GVARS), min_size=1, max_size=2, unique=True))
-    wvars = draw(st.lists(st.sampled_from(WVARS), min_size=1, max_size=3, unique=True))
-    fvals = [[k, draw(val)] for k in fvars]
-    fvals += [["DAY", draw(st.integers(1, 31))], ["MNTH", draw(st.integers(1, 12))],
-              ["YEAR", draw(st.integers(1995, 2030))]]
-    gvals = [[v, g, draw(val)] for v in gvars for g in groups]
-    wvals = [[v, w, draw(val)] for v in wvars for w in wells]
-    nlists = draw(st.integers(0, 3))
-    lnames = draw(st.lists(st.sampled_from(LISTNAMES), min_size=nlists, max_size=nlists, unique=True))
+class Src:
+    """decision stream fed by one Hypothesis-drawn byte string (the only source of randomness): one byte per
+    decision, zeros after the end.  Shrinking the bytes towards zero selects the first alternative everywhere."""
+
+    def __init__(self, data):
+        self.d = data
+        self.i = 0
+
+    def byte(self):
+        b = self.d[self.i] if self.i < len(self.d) else 0
+        self.i += 1
+        return b
+
+    def below(self, n):
+        if n <= 1:
+            return 0
+        if n <= 64:
+            return self.byte() % n
+        return ((self.byte() << 8) | self.byte()) % n
+
+    def rng(self, lo, hi):
+        return lo + self.below(hi - lo + 1)
+
+    def pick(self, seq):
+        return seq[self.below(len(seq))]
+
+    def subset(self, pool, lo, hi):
+        """lo..hi distinct elements of pool, in drawn order"""
+        n = self.rng(lo, min(hi, len(pool)))
+        rest = list(pool)
+        out = []
+        for _ in range(n):
+            out.append(rest.pop(self.below(len(rest))))
+        return out
+
+
+def build_a(data):
+    s = Src(data)
+    wells = s.subset(WELLPOOL, 1, 6)
+    groups = s.subset(GROUPPOOL, 1, 2)
+    levels = s.subset(LEVELS, 2, 6)
+    fvars = s.subset(FVARS, 1, 3)
+    gvars = s.subset(GVARS, 1, 2)
+    wvars = s.subset(WVARS, 1, 3)
+    fvals = [[k, s.pick(levels)] for k in fvars]
+    fvals += [["DAY", s.rng(1, 31)], ["MNTH", s.rng(1, 12)], ["YEAR", s.rng(1995, 2030)]]
+    gvals = [[v, g, s.pick(levels)] for v in gvars for g in groups]
+    wvals = [[v, w, s.pick(levels)] for v in wvars for w in wells]
+    lnames = s.subset(LISTNAMES, 0, 3)
     wlists = []
     for ln in lnames:
-        if ln == "*EMPTY":
-            wlists.append([ln, []])
-        else:
-            wlists.append([ln, draw(st.lists(st.sampled_from(wells), min_size=1, max_size=len(wells), unique=True))])
+        wlists.append([ln, [] if ln == "*EMPTY" else s.subset(wells, 1, len(wells))])
 
     def number(for_month=False):
         if for_month:
-            base = draw(st.integers(0, 13))
-            frac = draw(st.sampled_from([0.0, 0.0, 0.25, 0.3, 0.4, 0.49, 0.51, 0.6, 0.75, 0.9]))
+            base = s.rng(0, 13)
+            frac = s.pick([0.0, 0.0, 0.25, 0.3, 0.4, 0.49, 0.51, 0.6, 0.75, 0.9])
             return repr(base + frac) if frac else "%d" % base
-        v = draw(st.one_of(val, val, st.sampled_from(LEVELS)))
-        return fmt_num(v, draw(st.integers(0, 3)))
+        v = s.pick(levels) if s.below(3) else s.pick(LEVELS)
+        return fmt_num(v, s.below(4))
 
-    def quote(s, force=False):
-        return "'" + s + "'" if (force or draw(st.integers(0, 2)) == 0) else s
+    def quote(x, force=False):
+        return "'" + x + "'" if (force or s.below(3) == 0) else x
 
     def pattern():
-        k = draw(st.integers(0, 9))
+        k = s.below(10)
         if k <= 1:
             return "*"
         if k <= 6:
-            w = draw(st.sampled_from(wells))
-            return w[:draw(st.integers(1, len(w)))] + "*"
+            w = s.pick(wells)
+            return w[:s.rng(1, len(w))] + "*"
         if k == 7:
             return "Z*"
-        w = draw(st.sampled_from(wells))       # template with leading '*' needs the documented backslash escape
-        return "\\*" + w[draw(st.integers(1, len(w))) - 1:] + draw(st.sampled_from(["", "*"]))
+        w = s.pick(wells)       # template with a leading '*' needs the documented backslash escape
+        return "\\*" + w[s.rng(1, len(w)) - 1:] + s.pick(["", "*"])
 
     def scalar_quantity():
-        k = draw(st.integers(0, 5))
+        k = s.below(6)
         if k <= 2:
-            return [draw(st.sampled_from(fvars))]
+            return [s.pick(fvars)]
         if k == 3:
-            return [draw(st.sampled_from(gvars)), quote(draw(st.sampled_from(groups)))]
+            return [s.pick(gvars), quote(s.pick(groups))]
         if k == 4:
-            return [draw(st.sampled_from(wvars)), quote(draw(st.sampled_from(wells)))]
-        return [draw(st.sampled_from(["DAY", "YEAR"]))]
+            return [s.pick(wvars), quote(s.pick(wells))]
+        return [s.pick(["DAY", "YEAR"])]
 
     def comparison():
-        k = draw(st.integers(0, 12))
-        op = draw(st.sampled_from(OPS))
+        k = s.below(13)
+        op = s.pick(OPS)
         if k == 0:      # month
-            if draw(st.booleans()):
-                rhs = [draw(st.sampled_from(sorted(MONTHS)))]
-            else:
-                rhs = [number(True)]
+            rhs = [s.pick(sorted(MONTHS))] if s.below(2) else [number(True)]
             return ["MNTH", op] + rhs
         if k == 1:
-            q = draw(st.sampled_from(["DAY", "YEAR"]))
+            q = s.pick(["DAY", "YEAR"])
             cur = dict((a, b) for a, b in fvals)[q]
-            return [q, op, "%d" % (cur + draw(st.integers(-1, 1)))]
+            return [q, op, "%d" % (cur + s.rng(-1, 1))]
         if k <= 3:
-            lhs = [draw(st.sampled_from(fvars))]
+            lhs = [s.pick(fvars)]
         elif k == 4:
-            lhs = [draw(st.sampled_from(gvars)), quote(draw(st.sampled_from(groups)))]
+            lhs = [s.pick(gvars), quote(s.pick(groups))]
         elif k <= 6:
-            lhs = [draw(st.sampled_from(wvars)), quote(draw(st.sampled_from(wells)))]
+            lhs = [s.pick(wvars), quote(s.pick(wells))]
         elif k <= 10:
-            lhs = [draw(st.sampled_from(wvars)), quote(pattern(), draw(st.integers(0, 3)) > 0)]
+            p = pattern()
+            lhs = [s.pick(wvars), quote(p, s.below(4) > 0)]
         else:
-            ln = draw(st.sampled_from(lnames + ["*NONE"])) if lnames else "*NONE"
-            lhs = [draw(st.sampled_from(wvars)), quote(ln, draw(st.booleans()))]
-        if draw(st.integers(0, 4)) == 0:
-            rhs = scalar_quantity()
-        else:
-            rhs = [number()]
+            ln = s.pick(lnames + ["*NONE"])
+            lhs = [s.pick(wvars), quote(ln, s.below(2) == 0)]
+        rhs = scalar_quantity() if s.below(5) == 0 else [number()]
         return lhs + [op] + rhs
 
-    budget = [draw(st.integers(1, 8))]
-    AND = lambda: draw(st.sampled_from(["AND", "AND", "and", "And"]))
-    OR = lambda: draw(st.sampled_from(["OR", "OR", "or", "Or"]))
+    budget = [s.pick([2, 1, 3, 3, 4, 4, 5, 5, 6, 7, 8])]
 
     def gen(depth_left, parent):
         """token list of a sub-expression; parent in (None, 'and', 'or')"""
         if budget[0] <= 1:
             kind = "cmp"
+        elif parent is None:
+            kind = s.pick(["and", "or"])
         else:
-            kind = draw(st.sampled_from(["cmp", "and", "or", "and", "or"]))
+            kind = s.pick(["cmp", "cmp", "cmp", "and", "or"])
         if kind == "or" and parent == "and" and depth_left == 0:
             kind = "and"
         if kind == "cmp":
             budget[0] -= 1
             toks = comparison()
-            if depth_left > 0 and draw(st.integers(0, 9)) == 0:
+            if depth_left > 0 and s.below(10) == 9:
                 toks = ["("] + toks + [")"]
             return toks
-        n = draw(st.integers(2, 3))
+        n = s.rng(2, 3)
         must = (kind == "or" and parent == "and")
-        wrap = must or (depth_left > 0 and draw(st.integers(0, 3)) == 0)
+        wrap = must or (depth_left > 0 and s.below(4) == 3)
         inner_depth = depth_left - 1 if wrap else depth_left
         toks = []
         for i in range(n):
             if i and budget[0] <= 0:
                 break
             if i:
-                toks.append(AND() if kind == "and" else OR())
+                toks.append(s.pick(["AND", "AND", "and", "And"]) if kind == "and" else s.pick(["OR", "OR", "or", "Or"]))
             toks += gen(inner_depth, kind)
         if wrap:
             toks = ["("] + toks + [")"]
@@ -464,12 +489,15 @@ def a_case(draw):
     records = [[]]
     for t in tokens:
         records[-1].append(t)
-        if t.lower() in ("and", "or") and draw(st.integers(0, 2)) > 0:
+        if t.lower() in ("and", "or") and s.below(3) > 0:
             records.append([])
     return {"part": "A", "wells": wells, "fvals": fvals, "gvals": gvals, "wvals": wvals, "wlists": wlists,
-            "records": records,
-            "num": draw(st.sampled_from(["", "1*", "1", "3", "10000"])),
-            "wait": draw(st.sampled_from(["", "1*", "0", "2.5", "10"]))}
+            "records": records, "num": s.pick(["", "1*", "1", "3", "10000"]),
+            "wait": s.pick(["", "1*", "0", "2.5", "10"])}
+
+
+def a_case():
+    return st.binary(min_size=260, max_size=260).map(build_a)
 
 
 # ----------------------------------------------------------------------------------------------------------------
@@ -563,17 +591,16 @@ def model_history(case):
     return steps, flags, acts
 
 
-@st.composite
-def b_action(draw, name, base, start=None):
-    route = draw(st.sampled_from(["ctor", "ctor", "deck"]))
+def b_action(s, name, base, start=None):
+    route = s.pick(["ctor", "ctor", "deck"])
     a = {"name": name, "route": route,
-         "start": base + draw(st.sampled_from([0, 0, 2, 5, 60, DAY])) if start is None else start}
+         "start": base + s.pick([0, 0, 2, 5, 60, DAY]) if start is None else start}
     if route == "deck":
-        a["max_run"] = draw(st.sampled_from([0, 1, 2, 3, 4, 10000]))
-        a["wait_days"] = draw(st.sampled_from([None, 0.0, 0.5, 1.0, 2.0, 10.0, 100.0]))
+        a["max_run"] = s.pick([0, 1, 2, 3, 4, 10000])
+        a["wait_days"] = s.pick([None, 0.0, 0.5, 1.0, 2.0, 10.0, 100.0])
     else:
-        a["max_run"] = draw(st.sampled_from([1, 1, 2, 3, 4, 7, 1000000]))
-        a["wait"] = draw(st.sampled_from([0.0, 0.0, 1.0, 2.0, 2.5, 5.0, 60.0, float(DAY), 100.0 * DAY, 0.5]))
+        a["max_run"] = s.pick([1, 1, 2, 3, 4, 7, 1000000])
+        a["wait"] = s.pick([0.0, 0.0, 1.0, 2.0, 2.5, 5.0, 60.0, float(DAY), 100.0 * DAY, 0.5])
     return a
 
 
@@ -581,29 +608,32 @@ def wait_s(a):
     return (a["wait_days"] or 0.0) * DAY if a["route"] == "deck" else a["wait"]
 
 
-@st.composite
-def br_case(draw):
-    base = draw(st.sampled_from([1000, 946684800, 1700000000, 4102444800]))
-    n = draw(st.integers(1, 3))
-    actions = [draw(b_action("A%d" % (i + 1), base)) for i in range(n)]
+def build_br(data):
+    s = Src(data)
+    base = s.pick([1000, 946684800, 1700000000, 4102444800])
+    n = s.rng(1, 3)
+    actions = [b_action(s, "A%d" % (i + 1), base) for i in range(n)]
     cur = list(actions)
-    nev = draw(st.integers(3, 25))
-    t = base + draw(st.sampled_from([-7, -1, 0, 0, 2]))
+    nev = s.rng(3, 25)
+    t = base + s.pick([0, -7, -1, 0, 2])
     events = []
     for _ in range(nev):
-        if draw(st.integers(0, 14)) == 0:
-            i = draw(st.integers(0, len(cur) - 1))
-            na = draw(b_action(cur[i]["name"], base, start=t + draw(st.sampled_from([0, 0, 3]))))
+        if s.below(15) == 14:
+            i = s.below(len(cur))
+            na = b_action(s, cur[i]["name"], base, start=t + s.pick([0, 0, 3]))
             cur[i] = na
             events.append({"redefine": na})
             continue
-        w = wait_s(draw(st.sampled_from(cur)))
+        w = wait_s(s.pick(cur))
         wf, wc = int(math.floor(w)), int(math.ceil(w))
-        gap = draw(st.sampled_from([0, 0, 1, 2, 3, 5, max(wf - 1, 0), wf, wc, wc + 1, 2 * wc + 1, DAY, DAY // 2]))
+        gap = s.pick([0, 0, 1, 2, 3, 5, max(wf - 1, 0), wf, wc, wc + 1, 2 * wc + 1, DAY, DAY // 2])
         t += gap
-        events.append({"t": t, "fire": draw(st.lists(st.sampled_from([1, 1, 1, 0]), min_size=len(cur),
-                                                     max_size=len(cur)))})
+        events.append({"t": t, "fire": [s.pick([1, 1, 1, 0]) for _ in cur]})
     return {"part": "Br", "actions": actions, "events": events}
+
+
+def br_case():
+    return st.binary(min_size=200, max_size=200).map(build_br)
 
 
 def nondecreasing(k, hi):
@@ -642,8 +672,8 @@ class C18(Check):
         "a re-defined action (same name) is a new action whose run count starts at zero (State keys runs by name+id)",
         "min_wait values in deck form are whole/half days so that the day->second conversion is exact",
     ]
-    EXAMPLES = {"quick": 2000, "thorough": 60000}
-    MIN_EVALS = {"quick": 20000, "thorough": 400000}
+    EXAMPLES = {"quick": 5000, "thorough": 50000}      # per shard; plus ~60 000 / ~520 000 enumerated histories
+    MIN_EVALS = {"quick": 80000, "thorough": 800000}
     TIME_CAP = {"quick": 150, "thorough": 1100}
     EXHAUSTIVE = True
     LEVEL_TEXT = ("Generated-input search against two independent reference models written from the property "
@@ -760,8 +790,10 @@ class C18(Check):
         return hit, sha(["Bx", case["route"], m, w, case["start"] // unit, [t // unit for t in times]], 16), labels
 
     def floors(self, tier):
-        return {"A:mixed-and-or": 0.10, "A:true,wells": 0.05, "A:lhs:template": 0.10, "A:lhs:list": 0.03,
-                "A:lhs:date": 0.03, "Bx:supp-count": 0.05, "Bx:supp-wait": 0.05}
+        # fractions of ALL evaluations (A is roughly a quarter of them, the enumerated Bx cases more than half)
+        return {"A:mixed-and-or": 0.03, "A:flat-precedence": 0.01, "A:true,wells": 0.02, "A:lhs:template": 0.03,
+                "A:lhs:list": 0.015, "A:lhs:date": 0.015, "Bx:supp-count": 0.05, "Bx:supp-wait": 0.05,
+                "Br:supp-wait": 0.005, "Br:supp-count": 0.005}
 
     def sample_view(self, case):
         if case["part"] == "A":
@@ -908,6 +940,26 @@ class C18(Check):
         if r["pending_vs_ready"]:
             return V("B: Actions::pending() disagrees with ActionX::ready()", r["pending_vs_ready"])
         M, W, S = ref.max_run, ref.wait, ref.start
+        # fast path: expected ready-bits / final state of all 2^k patterns by one walk over the outcome tree
+        # (identical reference predicate); only if something differs, the detailed per-pattern pass below runs
+        # to name the broken rule.  Equality with the reference implies the three invariants.
+        exp = [None] * (1 << k)
+
+        def rec(i, p, count, last, bits):
+            if i == k:
+                exp[p] = (bits, count, -1 if last is None else last)
+                return
+            t = times[i]
+            if count < M and t >= S and (count == 0 or (t - last) >= W):
+                rec(i + 1, p, count, last, bits + "1")
+                rec(i + 1, p | (1 << i), count + 1, t, bits + "1")
+            else:
+                rec(i + 1, p, count, last, bits + "0")
+                rec(i + 1, p | (1 << i), count, last, bits + "0")
+        rec(0, 0, 0, None, "")
+        if len(r["ready"]) == (1 << k) and all(
+                (r["ready"][p], r["count"][p], r["last"][p]) == exp[p] for p in range(1 << k)):
+            return None
         for p in range(1 << k):
             bits = r["ready"][p]
             # invariants on the observed runs
